@@ -5,8 +5,8 @@
    copy-in / copy-out calls, sequencing, conditionals, loops with break / continue, returns.  What the operators,
    literals, conversions, accessors, callees and globals *do* is a parameter of the evaluator (a Section variable,
    not an axiom): the theorems in proofs/SemProofs.v hold for every choice of them, because the comparison demands
-   those words to be identical.  Constructs the evaluator has no rule for (switch, discard) make it stop with `None`
-   on both sides alike.  No proofs in this file. *)
+   those words to be identical.  Switch enters at the first matching case label of its block (else the default label), falls through
+   labels and leaves at break; discard ends the invocation.  No proofs in this file. *)
 From Coq Require Import List NArith Bool String.
 From RV Require Import Wire Alpha.
 Import ListNotations.
@@ -172,6 +172,7 @@ Record interp (V G : Type) := {
   op : string -> list V -> option V;   (* every operator that only computes *)
   dflt : list string -> option V;   (* what a declaration without initialiser holds *)
   agg : list string -> list V -> option V;   (* an aggregate initialiser's value for a declared type *)
+  case_match : list string -> V -> option bool;
 }.
 Arguments leaf {V G} _.
 Arguments gget {V G} _.
@@ -186,6 +187,7 @@ Arguments ctor {V G} _.
 Arguments op {V G} _.
 Arguments dflt {V G} _.
 Arguments agg {V G} _.
+Arguments case_match {V G} _.
 
 Section Eval.
   Context {V G : Type} (I : interp V G).
@@ -341,7 +343,7 @@ Section Eval.
     match fuel with O => None | S f => ev1 (ev f) e s end.
 
   (* ---- statements ---- *)
-  Inductive outcome := ONormal | OBreak | OContinue | ORet (v : option V).
+  Inductive outcome := ONormal | OBreak | OContinue | ORet (v : option V) | ODiscard.
 
   Fixpoint ev_init (fuel : nat) (ty : list string) (i : init) (s : st) : option (V * st) :=
     match fuel with
@@ -398,6 +400,7 @@ Section Eval.
           | Some (true, s1) =>
               match ex_block b s1 with
               | Some (ORet v, s2) => Some (ORet v, s2)
+              | Some (ODiscard, s2) => Some (ODiscard, s2)
               | Some (OBreak, s2) => Some (ONormal, s2)
               | Some (_, s2) =>
                   match inc with
@@ -409,6 +412,28 @@ Section Eval.
           | Some (false, s1) => Some (ONormal, s1)
           | None => None
           end
+      end.
+
+    (* switch: the statements after the first matching case label, else after the default label; labels are looked
+       for among the statements of the switch block itself; None: the comparison is not defined *)
+    Fixpoint find_case (b : list stmt) (v : V) : option (option (list stmt)) :=
+      match b with
+      | [] => Some None
+      | SWord (w :: cw) :: r =>
+          if String.eqb w "SCase" then
+            match case_match I cw v with
+            | Some true => Some (Some r)
+            | Some false => find_case r v
+            | None => None
+            end
+          else find_case r v
+      | _ :: r => find_case r v
+      end.
+    Fixpoint find_default (b : list stmt) : option (list stmt) :=
+      match b with
+      | [] => None
+      | SWord l :: r => match l with [w] => if String.eqb w "SDefault" then Some r else find_default r | _ => find_default r end
+      | _ :: r => find_default r
       end.
 
     Definition ex1 (x : stmt) (s : st) : option (outcome * st) :=
@@ -438,14 +463,36 @@ Section Eval.
           end
       | SWhile c b => loop fuel false (Some c) None b s
       | SDo b c => loop fuel true (Some c) None b s
-      | SSwitch _ _ => None
+      | SSwitch c b =>
+          match ev fuel c s with
+          | Some (v, s1) =>
+              match find_case b v with
+              | Some entry =>
+                  match (match entry with Some r => Some r | None => find_default b end) with
+                  | Some r => match ex_block r s1 with
+                              | Some (OBreak, s2) => Some (ONormal, s2)
+                              | other => other
+                              end
+                  | None => Some (ONormal, s1)
+                  end
+              | None => None
+              end
+          | None => None
+          end
       | SWord l =>
           match l with
-          | [w] => if String.eqb w "SBreak" then Some (OBreak, s)
-                   else if String.eqb w "SContinue" then Some (OContinue, s)
-                   else if String.eqb w "SRet0" then Some (ORet None, s)
-                   else None
-          | _ => None
+          | [] => None
+          | w :: rest =>
+              if String.eqb w "SCase" then Some (ONormal, s)                  (* a label does nothing when reached *)
+              else match rest with
+                   | [] => if String.eqb w "SBreak" then Some (OBreak, s)
+                           else if String.eqb w "SContinue" then Some (OContinue, s)
+                           else if String.eqb w "SRet0" then Some (ORet None, s)
+                           else if String.eqb w "SDiscard" then Some (ODiscard, s)
+                           else if String.eqb w "SDefault" then Some (ONormal, s)
+                           else None
+                   | _ => None
+                   end
           end
       | SRet e => match ev fuel e s with Some (v, s1) => Some (ORet (Some v), s1) | None => None end
       end.
@@ -469,13 +516,13 @@ Section Eval.
     | (x, dir, _, _) :: pr => (if String.eqb dir "0" then None else l x) :: read_outs pr l
     end.
 
-  (* result: the returned value, the final values of the out / inout parameters, the outside *)
-  Definition run (fuel : nat) (f : func) (args : list (option V)) (g : G) : option (option V * list (option V) * G) :=
+  (* result: whether the invocation was discarded, the returned value, the final values of the out / inout parameters, the outside *)
+  Definition run (fuel : nat) (f : func) (args : list (option V)) (g : G) : option (bool * option V * list (option V) * G) :=
     match bind_params (f_params f) args (fun _ => None) with
     | Some l =>
         match ex_block (ex fuel) (f_body f) (l, g) with
         | Some (o, (l1, g1)) =>
-            Some (match o with ORet v => v | _ => None end, read_outs (f_params f) l1, g1)
+            Some (match o with ODiscard => true | _ => false end, match o with ORet v => v | _ => None end, read_outs (f_params f) l1, g1)
         | None => None
         end
     | None => None
